@@ -355,7 +355,10 @@ class Gen:
             return NULL
         if d.nullable:
             self.count("nullable:nonnull")
-        return self.item(d, depth)
+        v = self.item(d, depth)
+        if d.tag is not None and v == ("f64", 1 << 63):
+            v = ("f64", 0x3FF0000000000000)      # -0.0 == 0.0 in Python; tagged floats are outside wf_env (bit equality)
+        return v
 
     def entity(self, cls, depth=0, resolve_default=None, want_default=None):
         """want_default: None = random per tagged field; True/False = force every tagged field (at
